@@ -8,6 +8,8 @@ use crate::refmodel::{make_tokenizer, tok_of, tokens_of, RefChars, RefDict, Tok}
 
 pub struct Partition {
     pub long: bool,
+    /// thorough only: sentences repeated up to ~20 000 characters
+    pub stress: bool,
 }
 
 /// The C01 validity predicate on one tokenization result.
@@ -107,7 +109,9 @@ pub fn validate_tokens(
 impl Sub for Partition {
     type Case = TokCase;
     fn name(&self) -> &'static str {
-        if self.long {
+        if self.stress {
+            "partition_stress"
+        } else if self.long {
             "partition_long"
         } else {
             "partition"
@@ -145,6 +149,14 @@ impl Sub for Partition {
             let tokenizer = make_tokenizer(dict, o.ignore_space, o.max_grouping_len)?;
             let mut worker = tokenizer.new_worker();
             for s in &case.sentences {
+                let repeated;
+                let s = if self.stress && !s.is_empty() {
+                    let n = s.chars().count();
+                    repeated = s.repeat((20_000 / n).max(1));
+                    &repeated
+                } else {
+                    s
+                };
                 let toks = guard(|| {
                     worker.reset_sentence(s);
                     worker.tokenize();
@@ -152,13 +164,13 @@ impl Sub for Partition {
                     let b: Vec<Tok> = worker.token_iter().map(|t| tok_of(&t)).collect();
                     (a, b)
                 })
-                .map_err(|p| format!("tokenize({s:?}, {o:?}): {p}"))?;
+                .map_err(|p| format!("tokenize({:?}…, {o:?}): {p}", s.chars().take(80).collect::<String>()))?;
                 ctx.eval();
                 if toks.0 != toks.1 {
                     return Err(format!("token(i) and token_iter() disagree on {s:?}"));
                 }
                 validate_tokens(&rd, s, &toks.0, o.ignore_space, ln.as_deref(), rn.as_deref())
-                    .map_err(|e| format!("sentence {s:?} opts {o:?}: {e}"))?;
+                    .map_err(|e| format!("sentence {:?}… opts {o:?}: {e}", s.chars().take(80).collect::<String>()))?;
                 let multibyte = s.len() != s.chars().count();
                 ctx.label_if(o.ignore_space, "ignore_space");
                 ctx.label_if(s.is_empty(), "empty_sentence");
@@ -184,15 +196,20 @@ pub fn run(opts: &crate::engine::Opts) -> crate::engine::Report {
         "no generated range line covers U+0000 (astral characters would take its class: open known finding of C03)".into(),
         "termination is checked by a watchdog (exit 2), not proved".into(),
     ];
-    let a = Partition { long: false };
-    let b = Partition { long: true };
+    let a = Partition { long: false, stress: false };
+    let b = Partition { long: true, stress: false };
     crate::props::committed_replays(&a, opts, &mut rep);
     run_sub(&a, opts, opts.tier.pick(6000, 120_000), &mut rep);
     run_sub(&b, opts, opts.tier.pick(600, 12_000), &mut rep);
+    // stress sentences of ~20 000 characters (accumulated cost stays inside i32: |cost| per step
+    // ≤ 65 534 in the generated cost regimes); a small sample in the quick tier keeps the path alive
+    let c = Partition { long: true, stress: true };
+    run_sub(&c, opts, opts.tier.pick(16, 600), &mut rep);
     rep
 }
 
 pub fn replay(path: &std::path::Path) -> Option<i32> {
-    crate::props::try_strict(&Partition { long: false }, "C01", path)
-        .or_else(|| crate::props::try_strict(&Partition { long: true }, "C01", path))
+    crate::props::try_strict(&Partition { long: false, stress: false }, "C01", path)
+        .or_else(|| crate::props::try_strict(&Partition { long: true, stress: false }, "C01", path))
+        .or_else(|| crate::props::try_strict(&Partition { long: true, stress: true }, "C01", path))
 }
